@@ -2,6 +2,7 @@ package main
 
 import (
 	"fmt"
+	"os"
 	"go/constant"
 	"go/token"
 	"go/types"
@@ -19,8 +20,10 @@ type SpecEnv struct {
 	pkg   *ssa.Package
 	bound map[string]Term
 	ctx   string
-	shift map[string]Term // bound variable -> slice offset it is shifted by (absolute-index form)
 	pats  *[]string
+	asGoal bool // the formula is about to be proved: one variant per quantifier is enough
+	pivotNode *SX
+	pivotVar  string
 	inOld bool
 	// resolveLocal resolves a source-level local variable name (loop invariants)
 	resolveLocal func(name string) (Val, bool)
@@ -195,6 +198,11 @@ func (e *SpecEnv) evalAs(x *SX, s *Sort) Term {
 // (top level, right of ==>, conjuncts) are replaced by fresh constants (skolemisation of the negated goal).
 func (e *SpecEnv) evalGoal(x *SX) Term {
 	u := e.u
+	if !e.asGoal {
+		n := *e
+		n.asGoal = true
+		return n.evalGoal(x)
+	}
 	switch {
 	case x.Op == "forall":
 		n := *e
@@ -303,59 +311,7 @@ func (e *SpecEnv) eval(x *SX) Term {
 		a, b := e.unify(e.eval(x.Args[1]), e.eval(x.Args[2]))
 		return ite(c, a, b)
 	case "forall", "exists":
-		n := *e
-		n.bound = map[string]Term{}
-		for k, v := range e.bound {
-			n.bound[k] = v
-		}
-		n.shift = map[string]Term{}
-		for k, v := range e.shift {
-			n.shift[k] = v
-		}
-		var pats []string
-		n.pats = &pats
-		var decl []string
-		for i, bn := range x.BindNames {
-			s := u.eng.sortByName(u.tc, x.BindTypes[i], e.pkg)
-			qn := "q_" + bn
-			n.bound[bn] = Term{qn, s}
-			decl = append(decl, "("+qn+" "+u.tc.smt(s)+")")
-			// absolute-index form: if the body indexes a slice directly with this variable, quantify over
-			// the absolute array index instead (q = offset + i), so that E-matching on (select arr q) works
-			if s.K == KInt {
-				if pv := findPivot(x.Args[0], bn, x.BindNames); pv != nil {
-					func() {
-						defer func() { recover() }()
-						b := e.eval(pv)
-						if !isLit(b) && b.T.K == KSlice {
-							off := sliceOff(b)
-							n.bound[bn] = Term{"(- " + qn + " " + off.S + ")", s}
-							n.shift[bn] = off
-						}
-					}()
-				}
-			}
-		}
-		body := n.evalBool(x.Args[0])
-		if len(x.Pats) > 0 {
-			var pts []string
-			for _, p := range x.Pats {
-				pts = append(pts, n.eval(p).S)
-			}
-			return Term{"(" + x.Op + " (" + strings.Join(decl, " ") + ") (! " + body.S + " :pattern (" + strings.Join(pts, " ") + ")))", sBool}
-		}
-		if len(pats) > 0 && x.Op == "forall" && len(x.BindNames) == 1 {
-			seen := map[string]bool{}
-			var ps []string
-			for _, p := range pats {
-				if !seen[p] {
-					seen[p] = true
-					ps = append(ps, ":pattern ("+p+")")
-				}
-			}
-			return Term{"(" + x.Op + " (" + strings.Join(decl, " ") + ") (! " + body.S + " " + strings.Join(ps, " ") + "))", sBool}
-		}
-		return Term{"(" + x.Op + " (" + strings.Join(decl, " ") + ") " + body.S + ")", sBool}
+		return e.quant(x)
 	case "field":
 		return e.field(x)
 	case "index":
@@ -548,26 +504,33 @@ func (e *SpecEnv) index(x *SX) Term {
 		hn, hs, es := u.elemHeapName(el)
 		h := u.heap(e.st, hn, hs)
 		arr := Term{"(select " + h.S + " (s-ref " + b.S + "))", nil}
-		if x.Args[1].Op == "ident" {
-			if off, ok := e.shift[x.Args[1].Tok]; ok && off.S == sliceOff(b).S {
-				q := "q_" + x.Args[1].Tok
-				r := sel(arr, Term{q, sInt}, es)
-				if e.pats != nil {
-					*e.pats = append(*e.pats, r.S)
-				}
-				return r
+		if e.pivotNode == x {
+			r := sel(arr, Term{e.pivotVar, sInt}, es)
+			if e.pats != nil {
+				*e.pats = append(*e.pats, r.S)
 			}
+			return r
 		}
 		return sel(arr, add(sliceOff(b), i), es)
 	case KStr:
-		r := sel(Term{"(str-arr " + b.S + ")", nil}, i, bvSort(8, false))
-		e.directPattern(x, i, r)
-		return r
+		if e.pivotNode == x {
+			r := sel(Term{"(str-arr " + b.S + ")", nil}, Term{e.pivotVar, sInt}, bvSort(8, false))
+			if e.pats != nil {
+				*e.pats = append(*e.pats, r.S)
+			}
+			return r
+		}
+		return sel(Term{"(str-arr " + b.S + ")", nil}, i, bvSort(8, false))
 	case KArray:
 		el := b.T.Go.Underlying().(*types.Array).Elem()
-		r := sel(b, i, u.tc.sortOf(el))
-		e.directPattern(x, i, r)
-		return r
+		if e.pivotNode == x {
+			r := sel(b, Term{e.pivotVar, sInt}, u.tc.sortOf(el))
+			if e.pats != nil {
+				*e.pats = append(*e.pats, r.S)
+			}
+			return r
+		}
+		return sel(b, i, u.tc.sortOf(el))
 	case KRef:
 		if at, ok := u.pointee(b).Underlying().(*types.Array); ok {
 			hn, hs, es := u.elemHeapName(at.Elem())
@@ -1031,20 +994,6 @@ func (e *SpecEnv) seqOf(x *SX) Term {
 
 var _ = token.ADD
 
-// directPattern registers (select a q) as a trigger when the index is exactly a (non-shifted) bound variable
-// and the array does not itself mention a bound variable.
-func (e *SpecEnv) directPattern(x *SX, i Term, r Term) {
-	if e.pats == nil || x.Args[1].Op != "ident" {
-		return
-	}
-	if _, shifted := e.shift[x.Args[1].Tok]; shifted {
-		return
-	}
-	if bt, ok := e.bound[x.Args[1].Tok]; ok && bt.S == i.S && !strings.Contains(strings.Replace(r.S, i.S, "", -1), "q_") {
-		*e.pats = append(*e.pats, r.S)
-	}
-}
-
 // findPivot finds an expression s such that the body contains s[v] with v the bound variable and s not
 // depending on any bound variable.
 func findPivot(x *SX, v string, binders []string) *SX {
@@ -1106,4 +1055,143 @@ func substSX(x *SX, sub map[string]*SX) *SX {
 		}
 	}
 	return &n
+}
+
+type pivotCand struct {
+	node *SX // the index node
+	off  *SX // additive offset in the index expression (nil = none)
+	neg  bool
+}
+
+// pivotCandidates collects index expressions  s[v], s[E+v], s[v+E], s[v-E]  (s and E free of bound variables).
+func pivotCandidates(x *SX, v string, binders []string, acc []pivotCand) []pivotCand {
+	if x == nil || x.Op == "forall" || x.Op == "exists" {
+		return acc
+	}
+	if x.Op == "index" && !mentions(x.Args[0], binders) {
+		ix := x.Args[1]
+		switch {
+		case ix.Op == "ident" && ix.Tok == v:
+			acc = append(acc, pivotCand{node: x})
+		case ix.Op == "bin" && ix.Tok == "+" && ix.Args[1].Op == "ident" && ix.Args[1].Tok == v && !mentions(ix.Args[0], binders):
+			acc = append(acc, pivotCand{node: x, off: ix.Args[0]})
+		case ix.Op == "bin" && ix.Tok == "+" && ix.Args[0].Op == "ident" && ix.Args[0].Tok == v && !mentions(ix.Args[1], binders):
+			acc = append(acc, pivotCand{node: x, off: ix.Args[1]})
+		case ix.Op == "bin" && ix.Tok == "-" && ix.Args[0].Op == "ident" && ix.Args[0].Tok == v && !mentions(ix.Args[1], binders):
+			acc = append(acc, pivotCand{node: x, off: ix.Args[1], neg: true})
+		}
+	}
+	for _, a := range x.Args {
+		acc = pivotCandidates(a, v, binders, acc)
+	}
+	return acc
+}
+
+// quant evaluates a quantifier. A universal quantifier over one integer variable that indexes sequences is
+// emitted once per indexing site in absolute-index form (q = offset + i, trigger (select a q)), so that
+// E-matching fires from either side of a copy-like fact.
+func (e *SpecEnv) quant(x *SX) Term {
+	u := e.u
+	mk := func(pc *pivotCand) (Term, bool) {
+		n := *e
+		n.bound = map[string]Term{}
+		for k, v := range e.bound {
+			n.bound[k] = v
+		}
+		var pats []string
+		n.pats = &pats
+		n.pivotNode = nil
+		var decl []string
+		for i, bn := range x.BindNames {
+			s := u.eng.sortByName(u.tc, x.BindTypes[i], e.pkg)
+			qn := "q_" + bn
+			n.bound[bn] = Term{qn, s}
+			decl = append(decl, "("+qn+" "+u.tc.smt(s)+")")
+		}
+		if pc != nil {
+			ok := func() (ok bool) {
+				defer func() {
+					if r := recover(); r != nil {
+						ok = false
+					}
+				}()
+				bn := x.BindNames[0]
+				qn := "q_" + bn
+				b := e.eval(pc.node.Args[0])
+				if isLit(b) {
+					return false
+				}
+				shift := Term{"0", sInt}
+				if b.T.K == KSlice {
+					shift = sliceOff(b)
+				} else if b.T.K != KStr && b.T.K != KArray {
+					return false
+				}
+				if pc.off != nil {
+					o := e.evalInt(pc.off)
+					if pc.neg {
+						shift = sub(shift, o)
+					} else {
+						shift = add(shift, o)
+					}
+				}
+				if shift.S == "0" {
+					n.bound[bn] = Term{qn, sInt}
+				} else {
+					n.bound[bn] = Term{"(- " + qn + " " + shift.S + ")", sInt}
+				}
+				n.pivotNode = pc.node
+				n.pivotVar = qn
+				return true
+			}()
+			if !ok {
+				return Term{}, false
+			}
+		}
+		body := n.evalBool(x.Args[0])
+		if len(x.Pats) > 0 {
+			var pts []string
+			for _, p := range x.Pats {
+				pts = append(pts, n.eval(p).S)
+			}
+			return Term{"(" + x.Op + " (" + strings.Join(decl, " ") + ") (! " + body.S + " :pattern (" + strings.Join(pts, " ") + ")))", sBool}, true
+		}
+		if len(pats) > 0 {
+			return Term{"(" + x.Op + " (" + strings.Join(decl, " ") + ") (! " + body.S + " :pattern (" + pats[0] + ")))", sBool}, true
+		}
+		return Term{"(" + x.Op + " (" + strings.Join(decl, " ") + ") " + body.S + ")", sBool}, true
+	}
+	if x.Op == "forall" && len(x.BindNames) == 1 && len(x.Pats) == 0 {
+		if s := u.eng.sortByName(u.tc, x.BindTypes[0], e.pkg); s.K == KInt {
+			cands := pivotCandidates(x.Args[0], x.BindNames[0], x.BindNames, nil)
+			var vs []Term
+			seen := map[string]bool{}
+			for i := range cands {
+				if len(vs) >= maxVariants() || (e.asGoal && len(vs) >= 1) {
+					break
+				}
+				t, ok := mk(&cands[i])
+				if ok && !seen[t.S] {
+					seen[t.S] = true
+					vs = append(vs, t)
+				}
+			}
+			if len(vs) > 0 {
+				return and(vs...)
+			}
+		}
+	}
+	t, _ := mk(nil)
+	return t
+}
+
+func maxVariants() int {
+	if v := os.Getenv("GOVC_VARIANTS"); v != "" {
+		var n int
+		fmt.Sscanf(v, "%d", &n)
+		if n > 0 {
+			return n
+		}
+	}
+	return 2
 }
